@@ -416,18 +416,24 @@ def _sequence_oracle(plan, res, tr, cuts, vals, sums_at, vF, R, dense):
     last = cuts[-1]
     if last == R + 1 and vals[last] is not None and vF is not None and vals[last] != vF:
         res.violate("worse-with-more-time", cut_before=last, value_before=canon(vals[last]), cut_after="unlimited", value_after=canon(vF))
-    # first solution is LPT (complete greedy)
+    # first solution is LPT (complete greedy). What is observable from outside without assuming how often the
+    # clock is polled: since the search starts from the LPT solution and only improves, NO returned solution may
+    # be worse than LPT. (Demanding that the first *observed* solution has LPT's sums would flag an implementation
+    # that polls the clock every other node - its first observable result may already be an improvement.)
     if plan["algo"] == "cg":
+        lpt = refmodels.lpt_sums(plan["items"], plan["numbins"])
+        lv = refmodels.objective_value(plan["objective"], lpt)
         first = next((c for c in cuts if vals[c] is not None and vals[c] != refmodels.INF), None)
-        if first is not None and first <= dense:
-            lpt = refmodels.lpt_sums(plan["items"], plan["numbins"])
-            lv = refmodels.objective_value(plan["objective"], lpt)
-            h3_exempt = plan["switches"]["h3"] and plan["objective"] == "max"
+        if first is not None:
+            if vals[first] > lv:
+                res.violate("first-not-lpt", cut=first, value=canon(vals[first]), lpt_value=canon(lv), lpt_sums=lpt, got_sums=sums_at.get(first))
             got = sums_at.get(first)
-            if vals[first] != lv:
-                res.violate("first-not-lpt", cut=first, value=canon(vals[first]), lpt_value=canon(lv), lpt_sums=lpt, got_sums=got)
-            elif not h3_exempt and got is not None and [float(x) for x in got] != [float(x) for x in lpt]:
-                res.violate("first-not-lpt", cut=first, got_sums=got, lpt_sums=lpt, note="same value, different sums")
+            if first <= dense and got is not None and [float(x) for x in got] == [float(x) for x in lpt]:
+                res.probe("first_observed_solution_has_exactly_lpt_sums")
+            elif first <= dense and vals[first] == lv:
+                res.probe("first_observed_solution_has_lpt_value_other_sums")
+            elif first <= dense:
+                res.probe("first_observed_solution_better_than_lpt")
             if first > 1:
                 res.probe("cut_before_first_leaf")
     if improvements >= 1:
@@ -469,6 +475,7 @@ def _execute_schedule(plan, res, tr):
             lim = f * span
         if lim > 0:
             limits.append(lim)
+    limits.append(2 * span + 10)
     if plan.get("schedule_kind") == "huge_limit":
         limits.append(1.0e18)
     limits = sorted(set(limits))
@@ -492,8 +499,9 @@ def _execute_schedule(plan, res, tr):
                 res.violate("lost-solution" if v == refmodels.INF else "worse-with-more-time",
                             limit_before=prev_l, value_before=canon(prev_v), limit_after=lim, value_after=canon(v))
             prev_v, prev_l = v, lim
-        if lim > readings[-1] - t0 and v is not None and vF is not None and v != vF:
-            # a limit beyond the last reading of the un-interrupted run can never fire
+        if lim >= 2 * span + 10 and v is not None and vF is not None and v != vF:
+            # a limit well beyond the last reading of the un-interrupted run can never fire (the margin keeps
+            # float rounding of start+limit at large clock origins out of the verdict)
             res.violate("worse-with-more-time", limit_before=lim, value_before=canon(v), cut_after="unlimited", value_after=canon(vF))
     if prev_v is not None and vF is not None and vF > prev_v:
         res.violate("worse-with-more-time", limit_before=prev_l, value_before=canon(prev_v), cut_after="unlimited", value_after=canon(vF))
